@@ -8,6 +8,10 @@ import sys
 
 
 def main(argv=None):
+    import faulthandler
+    import signal
+
+    faulthandler.register(signal.SIGUSR1, all_threads=False)
     ap = argparse.ArgumentParser(prog="vt")
     sub = ap.add_subparsers(dest="cmd", required=True)
     c = sub.add_parser("check")
